@@ -17,10 +17,16 @@ BoolA(t)   == [k |-> "atom", c |-> "bool", tok |-> t]
 StrA(t)    == [k |-> "atom", c |-> "str", tok |-> t]
 VarR(v)    == [k |-> "var", tok |-> v]
 Fld(r, f)  == [k |-> "fld", ref |-> r, name |-> f]
-Idx(r, i)  == [k |-> "idx", ref |-> r, i |-> i]
-Call(f, a) == [k |-> "call", f |-> f, a |-> a]
-SetOf(es)  == [k |-> "set", es |-> es]
-Rng(lb, lo, hi, rb) == [k |-> "range", lb |-> lb, rb |-> rb, lo |-> lo, hi |-> hi]
+RelOpsAll == {"=", "!=", "<", "<=", ">", ">=", "in"}
+\* positions of grammar level `expr` (call argument, set element, range bound, index): a relational,
+\* logical or quantified term must be parenthesised there
+NeedsP4(t) == \/ (t.k = "bin" /\ t.op \in RelOpsAll \cup LogicOps)
+              \/ (t.k = "un" /\ t.op = "not") \/ t.k = "quant"
+P4(t) == IF NeedsP4(t) THEN [k |-> "paren", a |-> t] ELSE t
+Call(f, a) == [k |-> "call", f |-> f, a |-> P4(a)]
+SetOf(es)  == [k |-> "set", es |-> [i \in 1..Len(es) |-> P4(es[i])]]
+Rng(lb, lo, hi, rb) == [k |-> "range", lb |-> lb, rb |-> rb, lo |-> P4(lo), hi |-> P4(hi)]
+Idx(r, i)  == [k |-> "idx", ref |-> r, i |-> P4(i)]
 Atomic(t)  == t.k \in {"own", "var", "atom", "fld", "idx", "call", "set", "range", "paren"}
 P(t)       == IF Atomic(t) THEN t ELSE [k |-> "paren", a |-> t]
 Bn(op, l, r) == [k |-> "bin", op |-> op, l |-> P(l), r |-> P(r)]
@@ -156,6 +162,52 @@ SlotBool(r) ==
          Bn("implies", Own("p"), Bn("=", r, NumA("1"))), Bn("iff", Bn("<", r, NumA("1")), Bn("<", Own("y"), r)) }
 SlotExprs == UNION {SlotNum(r) \cup SlotBool(r) : r \in SlotRefs}
 
+(* ---- exactly one definite type clash injected into a well-typed term (C05) ---- *)
+GoodNum  == {Own("x"), NumA("1"), Bn("+", Own("x"), NumA("1")), Call("abs", Own("y"))}
+GoodBool == {Own("p"), BoolA("True"), Bn("<", Own("x"), NumA("1")), Un("not", Own("q"))}
+WrongForNum  == {BoolA("True"), StrA("$s"), Bn("<", Own("a"), Own("b")), Bn("and", Own("a"), Own("b")), Un("not", Own("a")),
+                 SetOf(<<NumA("1")>>), Rng("[", NumA("1"), NumA("2"), "]"), Call("str", Own("a")), Call("bool", Own("a")),
+                 Qn("forall", "k", Own("xs"), Bn(">", K, NumA("0")))}
+WrongForBool == {NumA("1"), StrA("$s"), Bn("+", Own("a"), Own("b")), Un("-", Own("a")), Call("abs", Own("a")), Call("len", Own("xs")),
+                 SetOf(<<NumA("1")>>), Rng("[", NumA("1"), NumA("2"), "]"), Call("str", Own("a"))}
+WrongForPrim == {SetOf(<<NumA("1"), NumA("2")>>), Rng("[", NumA("1"), NumA("2"), "]")}
+WrongForComp == {NumA("1"), StrA("$s"), BoolA("True"), Bn("+", Own("a"), Own("b")), Bn("<", Own("a"), Own("b")), Call("abs", Own("a"))}
+NumOps2 == ArithOps \cup OrdOps
+ClashTerms ==
+  {Bn(op, w, g) : op \in NumOps2, w \in WrongForNum, g \in {Own("x"), NumA("1")}}
+  \cup {Bn(op, g, w) : op \in NumOps2, w \in WrongForNum, g \in {Own("x"), NumA("1")}}
+  \cup {Bn(op, w, g) : op \in LogicOps, w \in WrongForBool, g \in {Own("p"), Bn("<", Own("x"), NumA("1"))}}
+  \cup {Bn(op, g, w) : op \in LogicOps, w \in WrongForBool, g \in {Own("p"), Bn("<", Own("x"), NumA("1"))}}
+  \cup {Un("-", w) : w \in WrongForNum} \cup {Un("not", w) : w \in WrongForBool}
+  \cup {Bn(op, a, b) : op \in EqOps, a \in (GoodNum \ {Own("x")}) \cup {Un("-", Own("a")), Call("len", Own("xs"))},
+                       b \in (GoodBool \ {Own("p")}) \cup {StrA("$s"), Call("str", Own("a")), Bn("or", Own("a"), Own("b")),
+                                                           Qn("forall", "k", SetOf(<<NumA("1"), NumA("2")>>), Bn(">", K, Own("a")))}}
+  \cup {Bn(op, b, a) : op \in EqOps, a \in {NumA("1"), Bn("*", Own("b"), NumA("2")), Call("abs", Own("y"))},
+                       b \in {BoolA("True"), StrA("$s"), Bn("<", Own("c"), Own("d")), Un("not", Own("b"))}}
+  \cup {Bn(op, w, Own("x")) : op \in EqOps, w \in WrongForPrim} \cup {Bn(op, Own("x"), w) : op \in EqOps, w \in WrongForPrim}
+  \cup {Bn("in", w, SetOf(<<NumA("1")>>)) : w \in WrongForPrim} \cup {Bn("in", Own("x"), w) : w \in WrongForComp}
+  \cup {Call(f, w) : f \in Fun1Num, w \in {BoolA("True"), StrA("$s"), Bn("<", Own("a"), Own("b")), SetOf(<<NumA("1")>>)}}
+  \cup {Call(f, w) : f \in {"len", "sum", "prod", "max", "min"}, w \in WrongForComp}
+  \cup {Call(f, w) : f \in {"bool", "int", "float", "str"}, w \in WrongForPrim}
+  \cup {Bn(">", Call(f, w), NumA("0")) : f \in {"abs", "len"}, w \in {BoolA("True"), StrA("$s")}}
+  \cup {Bn("in", Own("x"), Rng("[", w, NumA("2"), "]")) : w \in WrongForNum \ {Rng("[", NumA("1"), NumA("2"), "]")}}
+  \cup {Bn("in", Own("x"), Rng("[", NumA("1"), w, "]!")) : w \in WrongForNum \ {Rng("[", NumA("1"), NumA("2"), "]")}}
+  \cup {Bn("in", Own("x"), SetOf(<<NumA("1"), w>>)) : w \in WrongForPrim}
+  \cup {Qn(q, "k", w, Bn(">", K, NumA("0"))) : q \in {"forall", "exists"}, w \in {NumA("1"), StrA("$s"), BoolA("True")}}
+  \cup {Qn(q, "k", Own("xs"), w) : q \in {"forall", "exists"}, w \in {Bn("+", K, NumA("1")), Call("abs", K), Un("-", K)}}
+  \cup {Bn(">", Idx(Own("xs"), w), NumA("0")) : w \in {StrA("$s"), BoolA("True"), Bn("<", Own("a"), Own("b")), SetOf(<<NumA("1")>>)}}
+  \* the same reference required at two disjoint types inside one predicate
+  \cup {Bn("and", a, b) : a \in {Bn(">", Own("x"), NumA("0")), Bn(">", Call("abs", Own("x")), NumA("0")), Bn("<", Bn("+", Own("x"), NumA("1")), Own("y"))},
+                          b \in {Bn("=", Own("x"), StrA("$s")), Own("x"), Un("not", Own("x")), Bn("in", NumA("1"), Own("x")), Bn(">", Fld(Own("x"), "f"), NumA("0"))}}
+  \cup {Bn("or", Bn("=", Fld(VarR("@A"), "n"), StrA("$s")), Bn(">", Fld(VarR("@A"), "n"), NumA("0"))),
+        Bn("implies", Bn(">", Idx(Own("xs"), NumA("0")), NumA("1")), Bn("=", Own("xs"), NumA("2"))),
+        Bn("and", Bn(">", Call("len", Own("z")), NumA("0")), Bn("<", Own("z"), NumA("3"))),
+        Bn("and", Qn("forall", "k", Own("z"), Bn(">", K, NumA("0"))), Bn("=", Own("z"), StrA("$s"))),
+        Bn("and", Bn("=", Own("x"), NumA("1")), Bn("=", Own("x"), BoolA("True")))}
+  \* top level of a predicate is not boolean
+  \cup {Bn("+", Own("x"), NumA("1")), NumA("1"), StrA("$s"), SetOf(<<NumA("1"), NumA("2")>>), Call("abs", Own("x")),
+        Rng("[", NumA("1"), NumA("2"), "]"), Un("-", Own("x")), Call("len", Own("xs"))}
+
 Members ==
   CASE Family = "num2"    -> Num2
     [] Family = "bool2"   -> Bool2
@@ -169,6 +221,7 @@ Members ==
     [] Family = "quants"  -> QuantExprs
     [] Family = "alias"   -> AliasExprs
     [] Family = "slots"   -> SlotExprs
+    [] Family = "clash"   -> ClashTerms
     [] OTHER -> {}
 
 TInit == cst \in Members
